@@ -52,9 +52,24 @@ def gen_relay(rng):
         else:
             evs.append(h.regular())
     half = max(1, len(evs) // 2)
+    racing = rng.random() < 0.35
+    if racing:
+        # a replaceable address whose stored version expires at the first pass, and its successor WITHOUT an
+        # expiration arriving at the very instant that pass runs: whatever the pass selected before, the
+        # successor is not one of the expired events
+        from .. import evgen
+        a = rng.choice(h.authors)
+        k = rng.choice([10002, 30023, 0])
+        dt = [["d", "x"]] if k == 30023 else []
+        v1 = evgen.make(a, kind=k, created_at=T0 - 20, tags=dt + [["expiration", str(T0 + interval // 2)], ["t", "old"]], content="v1")
+        v2 = evgen.make(a, kind=k, created_at=T0 - 10, tags=dt + [["t", "new"]], content="v2")
+        first, second = evs[:half] + [v1], [v2] + evs[half:]     # v1 stored last before the pass (the newest row)
+    else:
+        first, second = evs[:half], evs[half:]
     sub = [["send", json.dumps(["REQ", "live", {"kinds": [20000, 25000, 29999]}])], ["barrier"]]
-    pub = [["barrier"]] + [["send", json.dumps(["EVENT", e])] for e in evs[:half]] + \
-          [["wait", interval * rng.choice([1, 2]) + 5]] + [["send", json.dumps(["EVENT", e])] for e in evs[half:]] + \
+    pub = [["barrier"]] + [["send", json.dumps(["EVENT", e])] for e in first] + \
+          [["wait", interval * (1 if racing else rng.choice([1, 2])) + (0 if racing else 5)]] + \
+          [["send", json.dumps(["EVENT", e])] for e in second] + \
           [["wait", interval + 5], ["send", json.dumps(["REQ", "after", {"kinds": [20000, 25000, 29999]}])],
            ["send", json.dumps(["REQ", "all", {"since": 1}])]]
     # one engine error somewhere in the run (SQL): if it lands in a collection pass, that pass fails - the
@@ -63,6 +78,7 @@ def gen_relay(rng):
     if fault is not None and rng.random() < 0.5:
         pub.insert(len(pub) - 2, ["wait", interval + 5])       # room for one more pass
     return {"mode": "relay", "backend": backend, "interval": interval, "fault": fault,
+            "sched": histgen.stall_knob(rng, p=0.7 if racing else 0.15),
             "clients": [{"script": sub}, {"script": pub}]}
 
 
